@@ -4,88 +4,16 @@
 //	out <sink> <sha256 of the file bytes / of the decoded 3MF content / of the triangle sequence>
 //
 // It is run several times by the C09 check under different GOMAXPROCS / GOGC
-// environments; all runs must print identical lines.
+// environments; all runs must print identical lines (verif/internal/detsig).
 package main
 
 import (
-	"crypto/sha256"
 	"encoding/json"
 	"fmt"
-	"math"
 	"os"
-	"path/filepath"
-	"strings"
-	"sync"
 
-	"github.com/deadsy/sdfx/render"
-	"github.com/deadsy/sdfx/render/dc"
-	"github.com/deadsy/sdfx/sdf"
-
-	"verif/internal/fmtread"
-	"verif/internal/shape"
+	"verif/internal/detsig"
 )
-
-// Case is the job description.
-type Case struct {
-	Program  *shape.Node `json:"program"`
-	Renderer string      `json:"renderer"` // mcu mco dcv1 dcv2 | msu msq dc2
-	Cells    int         `json:"cells"`
-	Sinks    []string    `json:"sinks"` // triangles stl 3mf | lines dxf svg
-}
-
-func render3(name string, cells int) render.Render3 {
-	if name == "mco" {
-		return render.NewMarchingCubesOctree(cells)
-	}
-	return render.NewMarchingCubesUniform(cells)
-}
-
-func render2(name string, cells int) render.Render2 {
-	switch name {
-	case "msq":
-		return render.NewMarchingSquaresQuadtree(cells)
-	case "dc2":
-		return render.NewDualContouring2D(cells)
-	}
-	return render.NewMarchingSquaresUniform(cells)
-}
-
-func dcTriangles(s sdf.SDF3, name string, cells int) []*sdf.Triangle3 {
-	var out []*sdf.Triangle3
-	var wg sync.WaitGroup
-	wg.Add(1)
-	if name == "dcv1" {
-		ch := make(chan *sdf.Triangle3)
-		go func() {
-			defer wg.Done()
-			for t := range ch {
-				out = append(out, t)
-			}
-		}()
-		dc.NewDualContouringV1(-1, 0, true).Render(s, cells, ch)
-		close(ch)
-	} else {
-		ch := make(chan []*sdf.Triangle3)
-		go func() {
-			defer wg.Done()
-			for ts := range ch {
-				out = append(out, ts...)
-			}
-		}()
-		dc.NewDualContouringDefault(cells).Render(s, ch)
-		close(ch)
-	}
-	wg.Wait()
-	return out
-}
-
-func fileHash(path string) string {
-	b, err := os.ReadFile(path)
-	if err != nil {
-		return "error:" + err.Error()
-	}
-	return fmt.Sprintf("%x", sha256.Sum256(b))
-}
 
 func main() {
 	if len(os.Args) != 3 {
@@ -97,75 +25,12 @@ func main() {
 		fmt.Println("error:", err)
 		os.Exit(2)
 	}
-	var c Case
+	var c detsig.Case
 	if err := json.Unmarshal(b, &c); err != nil {
 		fmt.Println("error:", err)
 		os.Exit(2)
 	}
-	dir := os.Args[2]
-	built, err := shape.Build(c.Program)
-	if err != nil {
-		fmt.Println("domain:", err)
-		return
-	}
-	// silence the library's progress prints on stdout: results go to stderr-free lines prefixed "out"
-	for _, sink := range c.Sinks {
-		switch sink {
-		case "triangles":
-			var ts []*sdf.Triangle3
-			if strings.HasPrefix(c.Renderer, "dcv") {
-				ts = dcTriangles(built.SDF3(), c.Renderer, c.Cells)
-			} else {
-				ts = render.ToTriangles(built.SDF3(), render3(c.Renderer, c.Cells))
-			}
-			h := sha256.New()
-			for _, t := range ts {
-				for _, v := range t {
-					fmt.Fprintf(h, "%x %x %x\n", math.Float64bits(v.X), math.Float64bits(v.Y), math.Float64bits(v.Z))
-				}
-			}
-			fmt.Printf("out triangles %d %x\n", len(ts), h.Sum(nil))
-		case "stl":
-			p := filepath.Join(dir, "o.stl")
-			render.ToSTL(built.SDF3(), p, render3(c.Renderer, c.Cells))
-			fmt.Printf("out stl %s\n", fileHash(p))
-		case "3mf":
-			p := filepath.Join(dir, "o.3mf")
-			render.To3MF(built.SDF3(), p, render3(c.Renderer, c.Cells))
-			m, err := fmtread.Read3MFRaw(p)
-			if err != nil {
-				fmt.Printf("out 3mf error:%v\n", err)
-				continue
-			}
-			j, _ := json.Marshal(m)
-			fmt.Printf("out 3mf %x\n", sha256.Sum256(j))
-		case "lines":
-			ch := make(chan []*sdf.Line2)
-			h := sha256.New()
-			n := 0
-			var wg sync.WaitGroup
-			wg.Add(1)
-			go func() {
-				defer wg.Done()
-				for ls := range ch {
-					for _, l := range ls {
-						n++
-						fmt.Fprintf(h, "%x %x %x %x\n", math.Float64bits(l[0].X), math.Float64bits(l[0].Y), math.Float64bits(l[1].X), math.Float64bits(l[1].Y))
-					}
-				}
-			}()
-			render2(c.Renderer, c.Cells).Render(built.SDF2(), sdf.NewLine2Buffer(ch))
-			close(ch)
-			wg.Wait()
-			fmt.Printf("out lines %d %x\n", n, h.Sum(nil))
-		case "dxf":
-			p := filepath.Join(dir, "o.dxf")
-			render.ToDXF(built.SDF2(), p, render2(c.Renderer, c.Cells))
-			fmt.Printf("out dxf %s\n", fileHash(p))
-		case "svg":
-			p := filepath.Join(dir, "o.svg")
-			render.ToSVG(built.SDF2(), p, render2(c.Renderer, c.Cells))
-			fmt.Printf("out svg %s\n", fileHash(p))
-		}
+	for _, l := range detsig.Lines(c, os.Args[2]) {
+		fmt.Println(l)
 	}
 }
